@@ -221,6 +221,41 @@ def execute(case, ctx):
     return Result("ok", sorted(set(classes)), nontrivial)
 
 
+def pre_campaign(tier, seed):
+    """exhaustive sub-space of the bookkeeping part: every lattice of one or two sites (both insertion orders of the labels) with 1-3
+    orbitals and 1-3 spins per site, both ordering modes"""
+    import drive
+    ctx = drive.Ctx(tier, seed, 98)
+    failures = []; n = 0; hashes = []
+    shapes = [(o, s_) for o in (1, 2, 3) for s_ in (1, 2, 3)]
+    lattices = [[["A", o, s_]] for o, s_ in shapes]
+    for (o1, s1) in shapes:
+        for (o2, s2) in shapes:
+            lattices.append([["A", o1, s1], ["B", o2, s2]])
+            lattices.append([["B", o2, s2], ["A", o1, s1]])
+    if tier == "thorough":
+        for (o1, s1) in shapes:
+            for (o2, s2) in shapes:
+                for (o3, s3) in [(1, 1), (1, 2), (2, 3)]:
+                    lattices.append([["b", o1, s1], ["Zz", o2, s2], ["A", o3, s3]])
+    try:
+        for sites in lattices:
+            for mode in (0, 1):
+                case = {"sites": sites, "mode": mode, "bogus": [[sites[0][0], sites[0][1], 0], [sites[-1][0], 0, sites[-1][2]], ["nope", 0, 0]]}
+                r = execute(case, ctx)
+                n += 1
+                if r.status == "fail":
+                    failures.append({"case": case, "detail": r.detail, "signature": r.signature})
+                    break
+                hashes.append(M.case_hash(case))
+            if failures:
+                break
+    finally:
+        ctx.close()
+    cov = {"exhaustive_subspace": {"exhaustive": not failures, "what": "index bookkeeping (bijection, mutual inverses, size, non-existent triples) for every lattice of one or two sites with 1-3 orbitals and 1-3 spins per site in both label insertion orders and both ordering modes" + (" plus 243 three-site lattices" if tier == "thorough" else ""), "lattices_times_modes": n}}
+    return {"failures": failures[:1], "coverage": cov, "evaluations": n, "nontrivial_hashes": hashes, "classes": {"exhaustive-lattices": n}}
+
+
 MANIFEST = {
     "technique": "property-based testing (Hypothesis): bijection/round-trip invariants of the index tables and a metamorphic relation under site relabelling and ordering mode",
     "text": "Seeded random search over lattices (up to 12 modes, heterogeneous shapes, arbitrary labels) and both ordering modes for the bookkeeping invariants; for small lattices the same model is run relabelled / re-ordered and spectrum, occupancies and all G components must agree after the induced permutation.",
